@@ -6,9 +6,13 @@
 (*   context  the nominal record of every type in every message context       *)
 (*            (opcode x section x class x RDLENGTH policy x position)         *)
 (*   pairs    (Pairs = TRUE) every pair of non-nominal variants of two fields *)
+(*   tlv      the item lists of the loop machine TlvLoop for its four         *)
+(*            carriers (options, parameters, strings, windows)                *)
 EXTENDS GrammarOps, TLC, Json
 
-CONSTANTS GClasses, Pairs
+CONSTANTS GClasses, Pairs, TlvMaxItems, TlvLens, TlvDeltas
+
+MC_TlvDeltas == {0, 1, 0 - 1, 6}
 
 VARIABLE c
 vars == <<c>>
@@ -34,14 +38,29 @@ PairSet ==
             x \in {y \in TIx \X (1..9) \X (1..9) \X (2..60) \X (2..60) :
                      /\ y[2] < y[3] /\ y[3] <= NF(y[1]) /\ y[4] <= NV(y[1], y[2]) /\ y[5] <= NV(y[1], y[3])}}
 
+\* the inputs of TlvLoop (only the last header may lie), for every carrier
+TlvLists ==
+    UNION {{s \in [1..n -> [len : TlvLens, d : TlvDeltas]] : \A i \in 1..(n - 1) : s[i].d = 0} : n \in 0..TlvMaxItems}
+Tlv ==
+    {[kind |-> "tlv", carrier |-> k, items |-> s, stray |-> y, ctx |-> [Home(CarrierCode(k)) EXCEPT !.follow = f]] :
+        k \in Carriers, s \in TlvLists, y \in 0..3, f \in Follows}
+
+NoTlv == [carrier |-> "none", items |-> <<>>, stray |-> 0]
+
 Cases == Single \cup Context \cup PairSet
 
-Init == c \in Cases
+Init == c \in Cases \cup {x \in Tlv : x.stray < CarrierHdr(x.carrier)}
 Next == UNCHANGED c
 Spec == Init /\ [][Next]_vars
 
-Case == [kind |-> c.kind, type |-> Types[c.t].name, code |-> Types[c.t].code, tags |-> Tags(c.t, c.pick), ctx |-> c.ctx,
-         prims |-> Prims(c.t, c.pick), must |-> Must(c.t, c.pick, c.ctx),
-         bytePreserved |-> BytePreserved(Types[c.t].code) /\ ~HasPtr(Prims(c.t, c.pick))]
+Case ==
+    IF c.kind = "tlv"
+    THEN [kind |-> "tlv", type |-> Types[TypeIx(CarrierCode(c.carrier))].name, code |-> CarrierCode(c.carrier), tags |-> <<"tlv">>,
+          ctx |-> c.ctx, prims |-> TlvPrims(c.carrier, c.items, c.stray), must |-> TlvMust(c.carrier, c.items, c.stray, c.ctx),
+          bytePreserved |-> BytePreserved(CarrierCode(c.carrier)),
+          tlv |-> [carrier |-> c.carrier, items |-> c.items, stray |-> c.stray]]
+    ELSE [kind |-> c.kind, type |-> Types[c.t].name, code |-> Types[c.t].code, tags |-> Tags(c.t, c.pick), ctx |-> c.ctx,
+          prims |-> Prims(c.t, c.pick), must |-> Must(c.t, c.pick, c.ctx),
+          bytePreserved |-> BytePreserved(Types[c.t].code) /\ ~HasPtr(Prims(c.t, c.pick)), tlv |-> NoTlv]
 Emit == PrintT(<<"REPLAY", ToJson(Case)>>)
 =============================================================================
